@@ -27,9 +27,9 @@ def mc_jobs(ctx):
         ("windows", {"DeclSet": "{7, 8}", "SubSet": '{"dm", "legacy"}', "Eager": "FALSE", "MaxGen": 3, "MaxSteps": 4 if q else 6,
                      "Acts": acts("define", "del", "push", "clear", "fire", "set", "call", "unload")}, inv, prop, None),
     ]
-    # file contents with two definitions (also of the same name), one context
+    # file contents with two definitions (also of the same name), one context; contents whose top level fails after them
     jobs.append(("contents2", {"DeclSet": "{4, 7}", "StartedSet": "{TRUE, FALSE}", "MaxDefs": 2, "MaxSteps": 2 if q else 3,
-                               "Acts": acts("boot", "reload", "del", "close", "fire", "call")}, inv, prop, None))
+                               "Acts": acts("boot", "reload", "fail", "del", "close", "fire", "call")}, inv, prop, None))
     if not q:
         jobs.append(("session", {"DeclSet": "{6, 8}", "Ctx": '{"c1", "c3"}', "Name": '{"f"}', "MaxSteps": 5,
                                  "Acts": acts("define", "del", "push", "clear", "close", "reload", "unload", "fire")}, inv, prop, None))
@@ -37,7 +37,16 @@ def mc_jobs(ctx):
     jobs.append(("rush", {"DeclSet": "{4, 8}", "Ctx": '{"c1", "c3"}', "Name": '{"f"}', "Rush": "TRUE", "MaxGen": 3,
                           "SubSet": '{"dm", "legacy"}', "MaxSteps": 3 if q else 4,
                           "Acts": acts("define", "del", "reload", "close", "unload", "fire", "set", "call")}, inv, prop, None))
+    # a module (c4) loaded by an import executed at run time (statement / cell / inside a running function) or at the
+    # top of a file being loaded; contents whose top level fails after their definitions
+    jobs.append(("modules", {"DeclSet": "{7, 8}", "Ctx": '{"c1", "c3", "c4"}', "Name": '{"f"}', "Vias": '{"exec", "run"}', "MaxGen": 3,
+                             "MaxSteps": 3 if q else 4, "SubSet": '{"dm"}' if q else '{"dm", "legacy"}',
+                             "Acts": acts("import", "fail", "reload", "close", "define", "del", "fire", "unload")},
+                 inv, prop, None))
     # deviation flags: the invariant each one violates
+    jobs.append(("flag:session-import-module-not-started",
+                 {"FlagSets": '{{"session-import-module-not-started"}}', "DeclSet": "{4}", "Ctx": '{"c3", "c4"}', "MaxSteps": 1,
+                  "SubSet": '{"dm", "legacy"}', "Acts": acts("import")}, inv, prop, {"ActiveIffReferencedAndLoaded"}))
     jobs += [
         ("flag:legacy-stop-before-first-run-leaks", {"FlagSets": '{{"legacy-stop-before-first-run-leaks"}}', "SubSet": '{"legacy"}',
                                                      "DeclSet": "{4}", "Ctx": '{"c3"}', "Rush": "TRUE", "MaxSteps": 2,
@@ -53,9 +62,17 @@ def mc_jobs(ctx):
                                                      "MaxSteps": 2, "Vias": '{"run"}', "Acts": acts("define", "push")}, inv, prop,
          {"ActiveIffReferencedAndLoaded"}),
     ]
+    if q:       # quick tier: only the deviations still present in the code under test (every TLC run costs a JVM start);
+        # the configurations of the repaired ones (known_findings.jsonl: fixed) are checked in the thorough tier
+        live = ("flag:service-handler-not-repointed", "flag:session-import-module-not-started")
+        jobs = [j for j in jobs if not j[0].startswith("flag:") or j[0] in live]
     for w in ("W_NoUnloadAfterActivity", "W_NoShutdownRun", "W_NoClosureHeld"):
         jobs.append((w, {"DeclSet": "{7}", "Name": '{"f"}', "MaxSteps": 4, "Acts": acts("define", "del", "push", "unload")},
                      [w], [], {w}))
+    # round 3: import inside a running function, importer reloaded (module lives on), then a load that fails
+    w = "W_NoModuleOutlivesImporterNorFailedLoad"
+    jobs.append((w, {"DeclSet": "{12}", "Name": '{"f"}', "Ctx": '{"c1", "c4"}', "Vias": '{"run"}', "MaxSteps": 3,
+                     "Acts": acts("import", "reload", "fail")}, [w], [], {w}))
     return jobs
 
 
@@ -63,5 +80,5 @@ def main(ctx):
     sizes = {"sim": ctx.pick(6, 120), "depth": ctx.pick(8, 14), "rnd": ctx.pick(10, 150), "steps": ctx.pick(18, 40),
              "simsplit": ctx.pick(3, 6), "race": ctx.pick(6, 80)}
     L.main_common(ctx, "C09", mc_jobs(ctx),
-                  {"MaxGen": 8, "DeclSet": "{1, 4, 6, 7, 8, 9, 11, 12, 13}" if ctx.quick else "AllDecls",
-                   "DeclSet_masked": "{1, 4, 7, 8, 10, 13, 16}" if ctx.quick else "MaskedDecls"}, L.DECL_POOL, sizes)
+                  {"MaxGen": 8, "DeclSet": "{1, 4, 6, 7, 8, 9, 11, 12, 13, 18, 20}" if ctx.quick else "AllDecls",
+                   "DeclSet_masked": "{1, 4, 7, 8, 10, 11, 13, 16, 19}" if ctx.quick else "MaskedDecls"}, L.DECL_POOL, sizes)
